@@ -371,3 +371,9 @@ MANIFEST_ENTRY = dict(
     note='Bounded skeletons/controller sizes (tier B); LP/Adam/cvxpy external; L10/L11 trusted; known finding F11 (absorbing states in the evaluation).',
 )
 END_MANIFEST_ENTRY = True
+
+
+SENTINELS = globals().get('SENTINELS', []) + [
+    Sentinel('evaluation-observes-the-state-left', 'msdm.algorithms.fscgradientascent', "'na,sat,ato,naom->nsmt'",
+             "'na,sat,aso,naom->nsmt'", ['re:^eval/p222-tiger/N2']),
+]
